@@ -587,3 +587,18 @@ SPECS["C11"]["level_text"] += (". Added: the shared (module-level) AKAI director
 SPECS["C13"]["contracts"] += ["smpl_extract.transcoder:PassthroughTranscoder.__next__", "lemma:passthrough_concatenation[frame=2]", "lemma:pipeline_block[1x1,w=2,cut]"]
 SPECS["C13"]["level_text"] += ("; the export data generators end: every pass-through block advances the view's cursor by a positive number of bytes and a failed or empty read ends the data "
                                "(PassthroughTranscoder.__next__, drain lemma with measure; pipeline block over a truncated image)")
+
+# C16: merging an L/R pair builds a NEW sample and leaves its inputs (their stream lists) as they were - so a second export merges the same two halves again
+SPECS["C16"]["contracts"] += ["smpl_extract.generalized.sample:combine_stereo"]
+SPECS["C16"]["level_text"] += "; combine_stereo leaves the two input samples unchanged (frame), so every export merges the same halves"
+
+# C17 / C09 / C03: the text reader under contract (assumed: io text-file behaviour)
+for _p in ("C17", "C09", "C03"):
+    SPECS[_p]["contracts"] += ["smpl_extract.actions:parse_text_file"]
+SPECS["C17"]["level_text"] += ("; parse_text_file hands on every line of the file and turns a decoding failure ANYWHERE in the file into BadTextFile - 'not text' - never into an escaping "
+                               "UnicodeDecodeError (io text-file contract assumed)")
+
+# C04: one truncating open of the given path, one build from the given sample, a failed build passed on
+SPECS["C04"]["contracts"] += ["smpl_extract.generalized.wav:export_wav"]
+SPECS["C04"]["level_text"] += ("; export_wav opens exactly the given path in mode 'wb' (truncating), builds into it exactly once from the given sample and passes a builder error on "
+                               "without a second attempt into the same stream (open / build_stream assumed)")
